@@ -16,6 +16,7 @@ import PdfVerif.Lemmas.LabelsExtra
 import PdfVerif.Lemmas.LabelsGen
 import PdfVerif.Lemmas.Outline
 import PdfVerif.Lemmas.OutlineGraph
+import PdfVerif.Lemmas.OutlineStore
 import PdfVerif.Lemmas.NameTree
 
 namespace PdfVerif.Props.C17
@@ -599,6 +600,64 @@ example :
        (4, { info := { title := some [67], dest := some 9 } })]
     getOutlinesG g 1 = some [⟨1, [65], some 7, none, none⟩, ⟨2, [66], none, some 8, none⟩] := by
   decide +kernel
+
+/-! ### The graph walk on an outline stored as indirect objects (round 6)
+
+`C17_outline` speaks about the term model (`First`/`Next` unfolded); the code after fix 331cdea
+walks REFERENCES with a visited set.  These theorems close the gap: whenever the object graph
+stores an entry under distinct object ids (what every PDF writer does), the visited set never
+suppresses anything and the graph walk yields exactly what the term model yields — hence the
+preorder with levels, for every forest, any fan-out and depth. -/
+
+open PdfVerif.Spec.OutlineStore in
+/-- EVERY store, EVERY entry stored in it without sharing: `get_outlines` on the object graph
+(visited set, budget `|store| + 1`) = the term model on that entry. -/
+theorem C17_outline_graph_eq (g : Store) (root : Nat) (e : Entry) (ids : List Nat)
+    (hs : Stored g (some root) e ids) : getOutlinesG g root = some (getOutlines e) :=
+  PdfVerif.Lemmas.OutlineStore.getOutlinesG_stored g root e ids hs
+
+open PdfVerif.Spec.OutlineStore PdfVerif.Spec.Outline in
+/-- FULL outline statement for the repaired code's graph walk: for every forest in the domain, stored
+anywhere in an object graph as indirect objects, `get_outlines` = the items in document order with
+their nesting levels (ISO 32000-1 12.3.3). -/
+theorem C17_outline_graph (g : Store) (root : Nat) (forest : List OTree) (ids : List Nat) (items : List Item)
+    (hs : Stored g (some root) (encRoot forest) ids)
+    (h : Spec.Outline.outline forest = some items) :
+    getOutlinesG g root = some items := by
+  rw [C17_outline_graph_eq g root _ ids hs, C17_outline forest items h]
+
+/-- Data of the non-vacuity example: root (object 1) → item A (2) with child B (4) → sibling C (3). -/
+def exStore : Store :=
+  [(1, { info := {}, first := some 2, hasLast := true }),
+   (2, { info := { title := some [65], dest := some 1 }, first := some 4, hasLast := true, next := some 3 }),
+   (3, { info := { title := some [67], a := some 4 } }),
+   (4, { info := { title := some [66], dest := some 3 } })]
+
+def exForest : List PdfVerif.Spec.Outline.OTree :=
+  [.mk { title := some [65], dest := some 1 } [.mk { title := some [66], dest := some 3 } []],
+   .mk { title := some [67], a := some 4 } []]
+
+open PdfVerif.Spec.OutlineStore PdfVerif.Spec.Outline in
+/-- Non-vacuity: the hypotheses of `C17_outline_graph` hold for a two-level outline written as four
+indirect objects, and the graph walk lists A (1), B (2), C (1). -/
+example :
+    Stored exStore (some 1) (encRoot exForest) [1, 2, 4, 3]
+    ∧ Spec.Outline.outline exForest = some
+        [⟨1, [65], some 1, none, none⟩, ⟨2, [66], some 3, none, none⟩, ⟨1, [67], none, some 4, none⟩]
+    ∧ getOutlinesG exStore 1 = some
+        [⟨1, [65], some 1, none, none⟩, ⟨2, [66], some 3, none, none⟩, ⟨1, [67], none, some 4, none⟩] := by
+  have h4 : Stored exStore (some 4) (.mk { title := some [66], dest := some 3 } .nil false .nil) [4] :=
+    Stored.mk 4 { info := { title := some [66], dest := some 3 } } .nil .nil [] [] rfl .nil .nil
+      (by simp) (by simp) (by simp)
+  have h3 : Stored exStore (some 3) (.mk { title := some [67], a := some 4 } .nil false .nil) [3] :=
+    Stored.mk 3 { info := { title := some [67], a := some 4 } } .nil .nil [] [] rfl .nil .nil
+      (by simp) (by simp) (by simp)
+  have h2 := Stored.mk (g := exStore) 2
+    { info := { title := some [65], dest := some 1 }, first := some 4, hasLast := true, next := some 3 }
+    _ _ [4] [3] rfl h4 h3 (by simp) (by simp) (by simp)
+  have h1 := Stored.mk (g := exStore) 1 { info := {}, first := some 2, hasLast := true }
+    _ .nil _ [] rfl h2 .nil (by simp) (by simp) (by simp)
+  refine ⟨h1, by decide +kernel, by decide +kernel⟩
 
 end OutlineGraph
 
